@@ -15,6 +15,7 @@ RULE = ("pairs drawn per class (uniform, within +-3% of 3.0/4.5/7.0, one-8-bit-s
         "distinct = distinct (text,bg,spelling kinds,config).")
 ASSUMPTIONS = ["oracles/wcag.py and oracles/csscolor.py are correct readings of WCAG 2 / CSS Color 3 (self-tested)",
                "tinycss2 keyword table for the named-colour lattice"]
+ENUMERATED = {"quick": [], "thorough": ["all 216 x 216 web-safe colour pairs (one configuration each)", "every third grey level squared (two configurations each)"]}
 MUST_OBSERVE = {"any": ["verdicts_judged", "contract:check_and_fix_contrast"]}
 SIZES = {"quick": dict(pairs=2200, cfgs=3, lattice=0, bulk=60),
          "thorough": dict(pairs=11000, cfgs=12, lattice=1, bulk=600)}
@@ -28,6 +29,9 @@ def shards(tier, seed):
         names = sorted(csscolor.keywords())
         for i in range(16):
             out.append({"kind": "lattice", "names": names[i::16], "all": names})
+    if tier == "thorough":
+        out += [{"kind": "pairs", "cases": c} for c in PW.chunk(PW.lattice_cases(seed, "c01", "websafe", 1), 32)]
+        out += [{"kind": "pairs", "cases": c} for c in PW.chunk(PW.lattice_cases(seed, "c01", "grey", 2), 16)]
     out.append({"kind": "bulk", "seed": seed, "n": z["bulk"]})
     out.append({"kind": "flags", "seed": seed, "n": 90 if tier == "quick" else 900})
     return out
